@@ -168,6 +168,7 @@ int yyerror(module_decl ** module_nev, char * str)
 /* %destructor { if ($$) param_delete($$); } param_decl */
 %destructor { if ($$) param_delete($$); } param
 %destructor { if ($$) param_list_delete($$); } param_list
+%destructor { if ($$) param_list_delete($$); } param_seq
 %destructor { if ($$) expr_delete($$); } expr
 %destructor { if ($$) expr_list_delete($$); } expr_list
 %destructor { if ($$) seq_list_delete($$); } seq_list
